@@ -26,6 +26,7 @@ import (
 
 var (
 	root      = envOr("VERIF_ROOT", "/verif")
+	outRoot   = envOr("VERIF_OUT", root) // where evidence/ and replays/ are written
 	workerBin string
 )
 
@@ -52,7 +53,7 @@ func lanesFor(prop string) []laneSpec {
 func workerCmd(lane laneSpec, job *proto.Job) *exec.Cmd {
 	js, _ := json.Marshal(job)
 	cmd := exec.Command(workerBin, "-test.run", "^TestWorker$", "-test.timeout", "0")
-	cwd := filepath.Join(root, ".build", "cwd")
+	cwd := filepath.Join(filepath.Dir(workerBin), "cwd")
 	os.MkdirAll(cwd, 0o755)
 	cmd.Dir = cwd
 	cmd.Env = append([]string{"PATH=/usr/bin:/bin", "HOME=/nonexistent", "GOMAXPROCS=2", "GOMEMLIMIT=3GiB", "GOTRACEBACK=single", "VERIF_JOB=" + string(js)}, lane.Env...)
@@ -650,7 +651,7 @@ func doCheck(prop, tier string, seed uint64, nworkers, maxSec int, noMin bool) i
 	if per < 1 {
 		per = 1
 	}
-	outDir := filepath.Join(root, ".build", fmt.Sprintf("run-%s-%d", prop, os.Getpid()))
+	outDir := filepath.Join(filepath.Dir(workerBin), fmt.Sprintf("run-%s-%d", prop, os.Getpid()))
 	os.RemoveAll(outDir)
 	defer os.RemoveAll(outDir)
 	var mu sync.Mutex
@@ -792,8 +793,8 @@ func doCheck(prop, tier string, seed uint64, nworkers, maxSec int, noMin bool) i
 	sort.Strings(order)
 	nviol := 0
 	knownHits := map[string]int{}
-	os.MkdirAll(filepath.Join(root, "replays"), 0o755)
-	if old, _ := filepath.Glob(filepath.Join(root, "replays", prop+"-*.json")); len(old) > 0 {
+	os.MkdirAll(filepath.Join(outRoot, "replays"), 0o755)
+	if old, _ := filepath.Glob(filepath.Join(outRoot, "replays", prop+"-*.json")); len(old) > 0 {
 		for _, f := range old {
 			os.Remove(f)
 		}
@@ -854,7 +855,7 @@ func doCheck(prop, tier string, seed uint64, nworkers, maxSec int, noMin bool) i
 				rp.Note += " (minimisation could not reproduce the violation in a fresh worker; original kept)"
 			}
 		}
-		path := filepath.Join(root, "replays", fmt.Sprintf("%s-%d-%d.json", prop, seed, nviol))
+		path := filepath.Join(outRoot, "replays", fmt.Sprintf("%s-%d-%d.json", prop, seed, nviol))
 		b, _ := json.MarshalIndent(&rp, "", " ")
 		os.WriteFile(path, b, 0o644)
 		vlines = append(vlines, fmt.Sprintf("VIOLATION property=%s replay=%s", prop, path))
@@ -876,7 +877,7 @@ func doCheck(prop, tier string, seed uint64, nworkers, maxSec int, noMin bool) i
 			jc.close()
 			rp := Replay{Property: prop, Lane: fmt.Sprintf("race/GOMAXPROCS=%d", r.Procs), Tier: tier, Seed: seed, Idx: r.Idx, Class: "data-race", Detail: shorten(r.Report, 3000), Case: rs.Case,
 				Note: "race lane (real scheduler, -race build): the replay re-runs this case 50 times under the race detector; reports are true positives but their occurrence is not deterministic"}
-			path := filepath.Join(root, "replays", fmt.Sprintf("%s-%d-race-%d.json", prop, seed, r.Idx))
+			path := filepath.Join(outRoot, "replays", fmt.Sprintf("%s-%d-race-%d.json", prop, seed, r.Idx))
 			b, _ := json.MarshalIndent(&rp, "", " ")
 			os.WriteFile(path, b, 0o644)
 			vlines = append(vlines, fmt.Sprintf("VIOLATION property=%s replay=%s", prop, path))
@@ -954,9 +955,9 @@ func doCheck(prop, tier string, seed uint64, nworkers, maxSec int, noMin bool) i
 		"interleavings are explored at the granularity of synchronisation operations",
 		"sampling: a clean batch is evidence, not proof",
 	}
-	os.MkdirAll(filepath.Join(root, "evidence"), 0o755)
+	os.MkdirAll(filepath.Join(outRoot, "evidence"), 0o755)
 	eb, _ := json.MarshalIndent(&ev, "", " ")
-	os.WriteFile(filepath.Join(root, "evidence", prop+".json"), eb, 0o644)
+	os.WriteFile(filepath.Join(outRoot, "evidence", prop+".json"), eb, 0o644)
 
 	fmt.Printf("%s %s seed=%d: %d cases, %d runs, %d distinct interleavings, %d worker deaths, %d violations, %d known, %.1fs\n",
 		prop, tier, seed, tot.Cases, tot.Runs, distinctIL, len(all.crashes), nviol, len(knownHits), wall)
@@ -1141,7 +1142,7 @@ type raceReport struct {
 	Report string
 }
 
-var raceBin = filepath.Join(root, ".build", "race.test")
+var raceBin = envOr("VERIF_RACE_BIN", filepath.Join(root, ".build", "race.test"))
 
 func runRaceProc(seed uint64, n, shard, nsh, only, procs, count int) (reports []raceReport, cases int, harness string) {
 	job := fmt.Sprintf(`{"seed":%d,"n":%d,"shard":%d,"nshards":%d,"only":%d}`, seed, n, shard, nsh, only)
